@@ -86,7 +86,11 @@ def _collapse_preconditions(
             ).format(func.__qualname__)
         )
 
-    return base_preconditions + preconditions
+    # The groups inherited from the bases are copied: the group lists of the bases must not be shared with
+    # the collapsed preconditions of this function, otherwise a precondition added later to this function
+    # (*e.g.*, by decorating the method of the sub-class after the class has been created) would be appended
+    # to the group of the base class and thus silently strengthen the precondition of the base.
+    return [list(group) for group in base_preconditions] + preconditions
 
 
 def _collapse_snapshots(
